@@ -18,8 +18,9 @@ go build -o $wt/goit-mut . && HOME=/tmp/home-$id go test -vet=off -count=1 ./...
 rm -rf /tmp/home-$id
 echo "--- demo on the unchanged build / the changed build"
 (cd /repo && go build -o /tmp/goit-orig-$id .)
-sh demo.sh /tmp/goit-orig-$id >/dev/null 2>&1; echo "demo(orig) exit=$?"; rm -f /tmp/goit-orig-$id
-sh demo.sh $wt/goit-mut >/dev/null 2>&1; echo "demo(mut) exit=$?"
+SH=sh; head -1 demo.sh | grep -q bash && SH=bash
+$SH demo.sh /tmp/goit-orig-$id >/dev/null 2>&1; echo "demo(orig) exit=$?"; rm -f /tmp/goit-orig-$id
+$SH demo.sh $wt/goit-mut >/dev/null 2>&1; echo "demo(mut) exit=$?"
 copy=/tmp/verif-seed-$id
 mkdir -p $copy; rsync -a --delete --exclude .git --exclude replays --exclude evidence --exclude seeded /verif/ $copy/
 mkdir -p $copy/replays $copy/evidence
